@@ -99,6 +99,16 @@ Definition spec_composite_args (k : kid) (args : list val) : option (list (cid *
   | _, _ => None
   end.
 
+(* entering an object does not change what a later enter of the same object does to the slots (re-entry, re-use) *)
+Lemma reenter_law : forall c sv o sv1 o1 sv' sv2 o2,
+  penter c sv o = Some (sv1, o1) -> penter c sv' o1 = Some (sv2, o2) -> exists o2', penter c sv' o = Some (sv2, o2').
+Proof.
+  intros c sv o sv1 o1 sv' sv2 o2 H1 H2; destruct sv as [a b c0 d e]; destruct sv' as [a' b' c0' d' e'];
+  destruct c; unfold penter in *;
+  match goal with H1 : ?f _ _ = Some _ |- _ => unfold f in * end;
+  crunch; eexists; reflexivity.
+Qed.
+
 (* the arguments of linalg_dtypes are torch dtypes or None; a dtype is never falsy (token 0 is numeric zero) *)
 Definition dtype_like (v : val) : bool :=
   match v with VNone => true | VTok z => negb (Z.eqb z 0) | _ => false end.
@@ -124,4 +134,51 @@ Proof.
          end;
   inversion Hn; subst; clear Hn; cbn; (split; [reflexivity|]);
   repeat constructor; cbn; assumption.
+Qed.
+
+(* the specification of a freshly constructed context object: a primitive context puts its own arguments in
+   force; a composite the documented argument of each part *)
+Definition spec_new (k : kid) (a : list val) : option (list (cid * list val)) :=
+  match prim_of k with Some c => Some [(c, a)] | None => spec_composite_args k a end.
+
+Lemma inits_carry g : forall ps parts, map fst ps = map fst parts ->
+  Forall2 (fun p q => pinit (fst q) (snd q) (get (fst q) g) = Some (snd p)) ps parts ->
+  carries_ps cid penter kind_of parts ps.
+Proof.
+  induction ps as [|[c o] ps IH]; intros [|[c' a'] parts] Hm HF; simpl in Hm; try discriminate Hm;
+  inversion HF; subst; [constructor|].
+  inversion Hm; subst. constructor; [split; [reflexivity|]|apply IH; assumption].
+  intros sv sv1 o1 He. simpl in *. eapply effect_law; eauto.
+Qed.
+
+Lemma new_carries : forall k a g ps, args_ok k a = true -> new k a g = Some ps ->
+  exists sp, spec_new k a = Some sp /\ carries_ps cid penter kind_of sp ps.
+Proof.
+  intros k a g ps Hok Hn.
+  destruct (prim_of k) as [c|] eqn:Ep.
+  - exists [(c, a)]. split; [unfold spec_new; rewrite Ep; reflexivity|].
+    destruct k; cbn in Ep; try discriminate Ep; inversion Ep; subst c; cbn in Hn;
+    match type of Hn with match ?x with Some _ => _ | None => _ end = _ => destruct x eqn:Ei; [|discriminate Hn] end;
+    inversion Hn; subst; (apply Forall2_cons; [|apply Forall2_nil]); (split; [reflexivity|]);
+    intros sv sv1 o1 He; (eapply effect_law; [exact Ei|exact He]).
+  - destruct (spec_composite_args k a) as [parts|] eqn:Es.
+    + exists parts. split; [unfold spec_new; rewrite Ep; exact Es|].
+      destruct (composite_args_law k a g ps parts Hok Es Hn) as [Hm HF].
+      eapply inits_carry; eauto.
+    + exfalso. destruct k; cbn in Ep; try discriminate Ep;
+      (destruct a as [|x0 [|x1 [|x2 [|x3 a]]]]; cbn in Hn, Es; try discriminate Hn; try discriminate Es).
+Qed.
+
+(* the refinement theorem instantiated for the generated model, from the initial store *)
+Lemma refines_spec_initial : forall h st,
+  pre kid h st -> news_ok kid args_ok h -> forall s',
+  run cid gs get set penter pexit kid new h (gs0, []) = Some s' ->
+  exists specs' stk', srun cid gs get set kid kind_of spec_new h (gs0, [], []) = Some (fst s', specs', stk') /\
+                      map fst stk' = st.
+Proof.
+  intros h st Hp Hok s' Hr.
+  destruct (refines_spec_generic cid gs get set get_set_eq get_set_neq set_get set_set set_comm penter pexit restore_law
+              kid new new_nodup kind_of reenter_law spec_new args_ok new_carries h st Hp Hok gs0 [] [] s'
+              (Forall_nil _) (Forall2_nil _) Hr) as [specs' [stk' [H1 [H2 _]]]].
+  exists specs', stk'. split; assumption.
 Qed.
